@@ -376,7 +376,8 @@ func runC06(env *vk.Env) {
 	// leg B
 	rng := newRand(env.Seed, "c06b")
 	tr := &vk.Trace{}
-	nb := env.Pick(1500, 20000)
+	nb := env.Pick(1500, 160000)
+	part := 0
 	for i := 0; i < nb; i++ {
 		t := randWireType(rng, 3, true)
 		v := randWireValue(rng, t)
@@ -389,8 +390,15 @@ func runC06(env *vk.Env) {
 		in := append(bytesOf(ev.Bytes), wireTail(t)...)
 		tr.Add(wireDecEvent(t, variant, in, wirePriors[rng.Intn(4)], v, rng.Intn(2) == 0, "valid"))
 		env.Distinct("rand/" + t.class())
+		if tr.N >= 20000 { // TLC loads a trace file into memory: judge in chunks
+			part++
+			wireJudge(env, tr, fmt.Sprintf("B random compositions [part %d]", part), "C06")
+			tr = &vk.Trace{}
+		}
 	}
-	wireJudge(env, tr, "B random compositions", "C06")
+	if tr.N > 0 {
+		wireJudge(env, tr, "B random compositions", "C06")
+	}
 }
 
 func replayC06(env *vk.Env, b []byte) {
